@@ -90,7 +90,7 @@ def main():
                 "replay_cmd_template": f"bin/dialscheck -prop {pid} -tier quick -v",
                 "engine": "dialscheck",
                 "technique": tech,
-                "level_claimed": {"category": "other", "text": "Static analysis of the current source: structural necessary conditions of the property decided on all paths. " + text, "design_ref": "DESIGN.md section " + pid},
+                "level_claimed": {"category": "other", "text": "Static analysis of the current source: structural necessary conditions of the property decided on all paths. " + text + " Further rules were added for this property after four rounds of independently seeded changes and from confirmed defects; every rule with its text and instance count is listed in DESIGN_TABLES.md section A and summarised per property in DESIGN.md section 3 (the evidence file lists the obligations of the last run).", "design_ref": "DESIGN.md section " + pid},
                 "level_note": note,
             })
         else:
